@@ -184,6 +184,20 @@ func init() {
 				}
 			}
 		}
+		// an enveloped request: every message the backend is handed must, read the way its own envelope
+		// flag says (compressed or not), be a well-formed message of the declared codec - a payload left
+		// compressed under a flag that says it is not (or the reverse) is not a valid request
+		if br.Form.Enveloped() && !isREST && be.Seen.ReadErr == "" && len(br.Complaints) == 0 {
+			for i, m := range br.Msgs {
+				if len(m) == 0 {
+					continue
+				}
+				if _, derr := wire.Unmarshal(br.Codec, world.MsgDesc(), m); derr != nil {
+					fail("req.envelope.message-not-decodable", "message %d of the enveloped request handed to the backend is not a well-formed %s message when read as its envelope flag says: %v (the client sent %d well-formed message(s))", i, br.Codec, derr, len(req))
+					break
+				}
+			}
+		}
 		if len(req) > 1 && (shape == "unary" || shape == "server") && !br.Form.Enveloped() && be.Seen.ReadErr == "" && len(be.Seen.Body) > 0 {
 			// (where the one message travels in the request line - a GET - what follows it in the
 			// client's body is never read; not judged)
